@@ -797,13 +797,15 @@ impl State {
                 outpoints.set_htlc_output_spent(vout, false);
                 let outpoint = OutPoint { txid: outpoints.txid, vout };
                 outpoints.remove_second_level_htlc_output(&second_level_htlc_outpoint);
-                adds.push(outpoint);
-                removes.push(second_level_htlc_outpoint);
+                // same lists as in the forward direction: the caller re-watches the removes
+                // and stops watching the adds
+                removes.push(outpoint);
+                adds.push(second_level_htlc_outpoint);
             }
             StateChange::SecondLevelHTLCOutputSpent(outpoint) => {
                 let closing_outpoints = self.closing_outpoints.as_mut().unwrap();
                 closing_outpoints.set_second_level_htlc_spent(outpoint, false);
-                adds.push(outpoint);
+                removes.push(outpoint);
             }
             StateChange::MutualCloseConfirmed(_txid, funding_outpoint) => {
                 self.mutual_closing_height = None;
